@@ -1262,3 +1262,24 @@ def _is_pass_through(mem, name):
             return False
         rets += 1
     return rets > 0
+
+
+def loop_body_fn(fn, loop):
+    """one general round of *loop* as a function of its own: the parameters of
+    *fn* plus every local *fn* stores become parameters (unknown on entry), the
+    body is the loop's body; falling off the end (or `continue`) means "next
+    round", `return`/`raise` leave as they do in *fn*"""
+    for st in loop.body:
+        for x in ast.walk(st):
+            if isinstance(x, ast.Break):
+                raise AnalysisError(f"{fn.name}: loop body leaves with break")
+    params = [a.arg for a in fn.args.args]
+    stored = sorted({x.id for x in ast.walk(fn) if isinstance(x, ast.Name)
+                     and isinstance(x.ctx, ast.Store)} - set(params))
+    args = ast.arguments(posonlyargs=[], args=[ast.arg(arg=a) for a in
+                                               params + stored],
+                         kwonlyargs=[], kw_defaults=[], defaults=[])
+    new = ast.FunctionDef(name=fn.name + "__round", args=args, body=loop.body,
+                          decorator_list=[], lineno=loop.lineno,
+                          col_offset=loop.col_offset)
+    return new
